@@ -7,7 +7,7 @@ use core::ops::{
 };
 
 /// HighwayHash powered by Wasm SIMD instructions
-#[derive(Debug, Default, Clone)]
+#[derive(Debug, Clone)]
 pub struct WasmHash {
     v0L: V2x64U,
     v0H: V2x64U,
@@ -67,6 +67,12 @@ impl HighwayHash for WasmHash {
             buffer: self.buffer,
         }
         .checkpoint()
+    }
+}
+
+impl Default for WasmHash {
+    fn default() -> Self {
+        Self::new(Key::default())
     }
 }
 
